@@ -45,17 +45,16 @@ Theorem C01_accepting_reasons : forall ops,
 Proof. exact accepting_reasons. Qed.
 Print Assumptions C01_accepting_reasons.
 
-(* ... and after an accepting history that ends with the final flush, every run that was held at the exit and
-   whose application was not past its inactivity time-out has an empty harvest, and every unit it held is
+(* ... and after an accepting history that ends with the final flush, every run that was held at the exit
+   (also one whose application is past its inactivity time-out: fix de635d6) has an empty harvest, and every unit it held is
    acknowledged or was a package already reported for that application.  Together with C01_exactly_once:
    nothing accepted is lost and nothing is sent twice. *)
 Theorem C01_flush_delivers : forall pre outs r a,
   accepting (pre ++ [OCleanExit outs]) ->
   let s := fst (run pre) in
   p_quit s = false -> lookupN r (p_runs s) = Some a ->
-  inactive (get_obj s (ah_app (get_ah s a))) (p_now s) = false ->
   let s' := fst (run (pre ++ [OCleanExit outs])) in
   harvest_tags (ah_h (get_ah s' a)) = [] /\
   forall t, In t (harvest_tags (ah_h (get_ah s a))) -> In t (g_acked s') \/ In (t, RSeenPkg) (g_dropped s').
-Proof. exact flush_delivers. Qed.
+Proof. intros pre outs r a A s Q L. exact (flush_delivers pre outs r a A Q L eq_refl). Qed.
 Print Assumptions C01_flush_delivers.
